@@ -95,6 +95,29 @@ class ChainHist(Engine):
             steps.append({'t': 0.0, 'prio': 0, 'party': party, 'op': a['op'], 'args': a})
         return {'engine': self.name, 'property': [prop], 'config': {'mode': mode, 'parties': parties, 'never_selected': mode == 'single' and rng.random() < 0.25}, 'steps': steps}
 
+    def systematic(self, prop, tier):
+        """Process histories that begin before the library's address modules are loaded: a chain is selected
+        first (`import bitcoin; SelectParams(x)`), bitcoin.wallet / bitcoin.bech32 are imported afterwards, and
+        then the process goes through the other chains.  Each of these plans runs in an interpreter of its own."""
+        import random
+        plans = []
+        for k, pre in enumerate(RC.CHAINS):
+            rng = random.Random(4000 + k)
+            order = list(RC.CHAINS[k:]) + list(RC.CHAINS[:k])
+            steps = []
+            for chain in order[1:] + order[:2]:
+                steps.append({'t': 0.0, 'prio': 0, 'party': 0, 'op': 'select', 'args': {'op': 'select', 'chain': chain}})
+                for kind in KINDS:
+                    pl = self.gen_payload(rng, kind)
+                    steps.append({'t': 0.0, 'prio': 0, 'party': 0, 'op': 'mint', 'args': {'op': 'mint', 'kind': kind, 'payload': pl}})
+                    steps.append({'t': 0.0, 'prio': 0, 'party': 0, 'op': 'roundtrip', 'args': {'op': 'roundtrip', 'kind': kind, 'payload': self.gen_payload(rng, kind)}})
+                for _ in range(6):
+                    steps.append({'t': 0.0, 'prio': 0, 'party': 0, 'op': 'parse', 'args': {'op': 'parse', 'i': rng.randrange(1 << 16), 'edit': None}})
+            plans.append({'engine': self.name, 'property': [prop],
+                          'config': {'mode': 'single', 'parties': [pre], 'never_selected': False, 'fresh_process': {'preselect': pre}, 'systematic': 'chain-selected-before-import'},
+                          'steps': steps})
+        return plans
+
     def gen_raw(self, rng):
         r = rng.random()
         if r < 0.15:
